@@ -155,6 +155,7 @@ func c09ResolvePart() explore.Part {
 			rep := explore.RunCases(e, len(cases), 1, true, func(i int) explore.CaseResult {
 				c := cases[i]
 				cr := explore.CaseResult{Execs: 1, Trans: 1}
+				acc.plain++
 				if f := one(c.n, c.off, c.ln, acc); f != nil {
 					cr.Fail, cr.Replay = f, i
 				}
@@ -481,6 +482,7 @@ func c09QFlightPart() explore.Part {
 		visit := func(dgs [][]QUICCryptoRange) bool {
 			cr.Execs++
 			cr.Trans++
+			acc.plain++
 			if f := one(c.L, c.Deco, dgs, acc); f != nil {
 				cr.Fail = f
 				cr.Human = []string{fmt.Sprintf("QUICFlightFrames ranges %v on a %d byte stream, decoration %d", dgs, c.L, c.Deco)}
@@ -803,6 +805,7 @@ func c09ValidatePart() explore.Part {
 				payloads = append(payloads, cur)
 				cr.Execs++
 				cr.Trans++
+				acc.plain++
 				if f := one(c.L, payloads, names, acc); f != nil {
 					cr.Fail = f
 					return cr
